@@ -24,9 +24,9 @@ def build_conc(ctx):
     return exe
 
 
-def l0_conc(ctx, tag, nt, roles, ops, clr=True, live=True, timeout=3000):
+def l0_conc(ctx, tag, nt, roles, ops, clr=True, live=True, timeout=3000, plen=1):
     cfg = (f"CONSTANTS\n  NT = {nt}\n  Roles = {{{', '.join(chr(34) + r + chr(34) for r in roles)}}}\n"
-           f"  Ops = {{{', '.join(chr(34) + o + chr(34) for o in ops)}}}\n  HasClr = {'TRUE' if clr else 'FALSE'}\n"
+           f"  Ops = {{{', '.join(chr(34) + o + chr(34) for o in ops)}}}\n  HasClr = {'TRUE' if clr else 'FALSE'}\n  PLen = {plen}\n"
            f"SPECIFICATION {'FairSpec' if live else 'Spec'}\nINVARIANT Safe\nINVARIANT MemSafe\nINVARIANT HardOK\nINVARIANT Final\nINVARIANT NoRace\n"
            + ("PROPERTY Live\n" if live else "") + "CHECK_DEADLOCK FALSE\n")
     return l0(ctx, tag, "PtrConc", "", cfg, timeout=timeout, heap="24g")
@@ -80,7 +80,7 @@ def conc_phase(ctx, tag, exe, scenarios, props, clr=True, maxruns=200000, nt=4, 
         # far more schedules than the unchanged tree has: what was explored is still judged, and the evidence says so
         ctx.notes.append(f"{tag}: schedule enumeration stopped at the event budget ({summ.get('events')} events)")
     parts, nlines, nruns = split_runs(trace, NCPU // 2)
-    consts = f"  NT = {nt}\n  Roles = {{\"owner\"}}\n  Ops = {{\"none\"}}\n  HasClr = {'TRUE' if clr else 'FALSE'}"
+    consts = f"  NT = {nt}\n  Roles = {{\"owner\"}}\n  Ops = {{\"none\"}}\n  HasClr = {'TRUE' if clr else 'FALSE'}\n  PLen = 1"
     jobs = [(lv, k, p) for lv in (1, 2) for k, p in enumerate(parts)]
 
     def one(job):
@@ -151,6 +151,28 @@ FOUR = [scen([("owner", "reset1"), ("weak", "lock"), ("weak", "lock"), ("weak", 
         scen([("owner", "reset1"), ("owner", "reset1"), ("weak", "lock"), ("weak", "lock")])]
 
 
+# programs of two operations: the second one meets what the first one left behind (an occupied share / lock
+# target is let go inside the same public call, a thread locks its own weak pointer right after dropping its
+# own owner, a weak pointer is re-pointed) while another thread is in the middle of its own operation
+PAIRS = ["share+share", "share+lock", "lock+lock", "lock+share", "wfrom+lock", "reset1+lock", "wreset+wfrom",
+         "share+reset1", "lock+reset1", "wfrom+wfrom", "reset1+share", "lock+wreset"]
+PARTNERS = [("owner", "reset1"), ("weak", "lock"), ("both", "lock"), ("both", "reset1"), ("weak", "wreset"), ("owner", "share")]
+
+
+def two_op_scenarios(quick):
+    both2 = [("both", "reset1+lock"), ("both", "share+share"), ("both", "lock+lock"), ("both", "lock+reset1"), ("weak", "lock+lock"), ("both", "wreset+wfrom")]
+    if quick:
+        out = [scen([(r, p), b]) for r in ("both", "weak") for p in PAIRS[:6] for b in (PARTNERS[0], PARTNERS[1], PARTNERS[3])
+               if not (r == "weak" and not p.endswith("lock"))]
+        out += [scen([a, b]) for k, a in enumerate(both2[:3]) for b in both2[k:3]]
+        return out
+    out = [scen([(r, p), b]) for r in ("both", "owner", "weak") for p in PAIRS for b in PARTNERS]
+    out += [scen([a, b]) for k, a in enumerate(both2) for b in both2[k:]]
+    if not quick:
+        out += [scen([(r, p), (r2, p2)]) for r in ("both", "weak") for p in PAIRS for r2 in ("both", "owner") for p2 in PAIRS if (r, p) < (r2, p2)]
+    return out
+
+
 def run(ctx):
     props = {ctx.pid}
     exe = build_conc(ctx)
@@ -171,12 +193,17 @@ def run(ctx):
         conc_phase(ctx, "impl-t2", exe, two, props)
         conc_phase(ctx, "impl-t3", exe, [scen([("owner", "reset1"), ("weak", "lock"), ("weak", "lock")]),
                                          scen([("owner", "reset1"), ("weak", "lock"), ("weak", "wreset")])], props)
+        # two operations per thread: model (every pair over five operations) and the real code (selected pairs)
+        l0_conc(ctx, "t2p2", 2, ["owner", "weak", "both"], ["reset1", "share", "lock", "wfrom"], plen=2)
+        conc_phase(ctx, "impl-t2p2", exe, two_op_scenarios(True), props)
         # larger scenarios: randomly sampled schedules (no pruning)
         conc_phase(ctx, "rand-t4", exe, FOUR, props, maxruns=-2500)
     else:
         l0_conc(ctx, "t3", 3, ["owner", "weak", "both"], ["reset1", "lock", "wreset", "share"])
         l0_conc(ctx, "t4", 4, ["owner", "weak"], ["reset1", "lock", "wreset"], live=False)
         conc_phase(ctx, "impl-t2", exe, two, props)
+        l0_conc(ctx, "t2p2", 2, ROLES, OPS, plen=2)
+        conc_phase(ctx, "impl-t2p2", exe, two_op_scenarios(False), props)
         conc_phase(ctx, "impl-t2-noclr", exe, [s for s in two if "none" not in s and ("lock" in s or "reset1" in s)], props, clr=False)
         three = [scen([a, b, c]) for a, b, c in [
             (("owner", "reset1"), ("weak", "lock"), ("weak", "lock")),
